@@ -306,4 +306,7 @@ pub fn run(g: &mut Global) {
     g.exhaustive("ultra_2^16", nl * g.tier.pick(2, 5), &move |i| crate::props::longrun::grid_case(&lc1, i, seed, l16), &|c, ctx| crate::props::longrun::check_long(c, ctx, "C02"));
     let l24 = (1usize << 24) + 5000;
     g.exhaustive("ultra_2^24", g.tier.pick(4, nl * 2), &move |i| crate::props::longrun::grid_case(&lc, i * 3 + 1, seed ^ 0x24, l24), &|c, ctx| crate::props::longrun::check_long(c, ctx, "C02"));
+    if g.tier == Tier::Thorough {
+        g.fuzz_stage("ops_value", Some(1), 600_000, "random", &|b| crate::fuzzdec::decode_c02(b), &check);
+    }
 }
